@@ -9,7 +9,18 @@
    BP <refbtdb> <btdb>        -> t|f                          (preserved (map content ref) db)
    AD <events chronological, ','-separated or ->  -> t|f       (applied_after_done)
    SD <checkpoint> <sdb>      -> some <sdb> | none            (sdl_migrate)   sdb: blocks ','-separated,
-                                                              '-' = pruned, len:sdl otherwise *)
+                                                              '-' = pruned, len:sdl otherwise; '_' = no height
+   SA <checkpoint> <sdb> <end d|c<n>|e|x> <batches>          one observed Migrate call of statedifflength
+       batches: ';'-separated, each '.'-separated block numbers, 'e' = empty batch, '-' = no batch at all
+     -> <producible t/f> | <sdb after each batch joined by '~' or -> | <final sdb> | <ck> <applied t/f>
+        | <sdl_ck_ok final ck> <sdl_done final> <sdl_wf start> <uninterrupted-from-final completes to sdl_complete t/f>
+          <step-level model (sdl_step under the environment proposing the observed batches) reaches the same database and token t/f/->
+   HA <hsdb> <end d|i|e|x> <wipes> <batches>                 one observed Migrate call of headstate
+       hsdb: rows ','-separated addr/class/nonce/height/contract, hex, '-' = absent, contract n.c.h; '_' = no row
+       batches: as above with hex addresses
+     -> <producible t/f> | <hsdb after each write joined by '~' or -> | <final hsdb> | <tok t/f> <applied t/f>
+        | <hs_ok start> <hs_wiped final> <hs_complete start> <step-level model (hs_step) reaches the same database and token t/f/->
+   HV <hsdb0> <hsdb>          -> <hs_consistent hsdb0> <new_view hsdb = legacy_view hsdb0> <hs_wiped hsdb> *)
 let ios = int_of_string
 let soi = string_of_int
 let split c s = if s = "-" || s = "" then [] else String.split_on_char c s
@@ -23,7 +34,7 @@ let mk_stub idx opt total mode failat yieldat : (n list, n) migration =
       if c then (db, (if mode = "n" then NilWithCtxErr else Suspended (n_of_int p)))
       else if failat = p + 1 then (db, Failed)
       else
-        let db' = List.mapi (fun j v -> if j = idx then n_of_int (max (int_of_n v) (p + 1)) else v) db in
+        let db' = List.mapi (fun j v -> if j = idx then n_of_int (Stdlib.max (int_of_n v) (p + 1)) else v) db in
         if p + 1 >= total then (db', Done)
         else if yieldat = p + 1 then (db', Yield (n_of_int (p + 1)))
         else (db', Suspended (n_of_int (p + 1)))) }
@@ -105,6 +116,127 @@ let show_block (b : block) =
   ^ (match b.b_new with None -> "-" | Some (a, c) -> show_ids a ^ ";" ^ show_ids c)
 let show_db (d : btdb) = if d = [] then "_" else String.concat "," (List.map show_block d)
 
+(* ---------- statedifflength / headstate at batch granularity ---------- *)
+let parse_sblock b = if b = "-" then None else match String.split_on_char ':' b with
+  | [l; d] -> Some { s_len = n_of_int (ios l); s_sdl = n_of_int (ios d) } | _ -> failwith "sblock"
+let show_sblock = function None -> "-" | Some b -> soi (int_of_n b.s_len) ^ ":" ^ soi (int_of_n b.s_sdl)
+let parse_sdb s : sblock option list = if s = "_" then [] else List.map parse_sblock (String.split_on_char ',' s)
+let show_sdb (d : sblock option list) = if d = [] then "_" else String.concat "," (List.map show_sblock d)
+let parse_batches (f : string -> 'a) (s : string) : 'a list list =
+  if s = "-" then [] else
+  List.map (fun b -> if b = "e" then [] else List.map f (String.split_on_char '.' b)) (String.split_on_char ';' s)
+
+let do_sa rest =
+  match words rest with
+  | [ck; db; en; bs] ->
+    let ck = nat_of_int (ios ck) in
+    let db = parse_sdb db in
+    let e = match en.[0] with
+      | 'd' -> SEDone | 'e' -> SEError | 'x' -> SECrash
+      | 'c' -> SECheckpoint (nat_of_int (ios (String.sub en 1 (String.length en - 1))))
+      | _ -> failwith "end" in
+    let a = { sa_batches = parse_batches (fun x -> nat_of_int (ios x)) bs; sa_end = e } in
+    let ok = sdl_attempt_ok ck db a in
+    let tr = sdl_trace db a.sa_batches in
+    let s' = sdl_apply { sp_db = db; sp_ck = ck; sp_applied = false } a in
+    let fin = s'.sp_db in
+    let u = sdl_uninterrupted s'.sp_ck fin in
+    let s'' = sdl_apply { sp_db = fin; sp_ck = s'.sp_ck; sp_applied = false } u in
+    let completes = sdl_attempt_ok s'.sp_ck fin u && s''.sp_applied && s''.sp_db = sdl_complete db in
+    (* the same observation replayed on the step-level model (sdl_step, the migration the runner-level
+       theorem speaks about) under the environment that proposes exactly the observed batches *)
+    let stepmodel =
+      if not ok then "-" else
+      let tok0 = if int_of_nat ck = 0 then None else Some (SCk ck) in
+      let bs = a.sa_batches in
+      let rec run d t k =          (* k uncancelled steps *)
+        if k = 0 then `Going (d, t) else
+        match sdl_step (fun _ _ -> (bs, O)) d t false with
+        | (d', Done) -> `Done d'
+        | (d', Suspended t') -> run d' (Some t') (k - 1)
+        | (d', _) -> `Failed d' in
+      (match e with
+       | SEDone ->
+         (match run db tok0 (List.length bs + 3) with
+          | `Done d' -> tf (d' = fin)
+          | _ -> "f")
+       | SECheckpoint n ->
+         (match run db tok0 (List.length bs) with
+          | `Going (d, t) ->
+            let env _ hi = (bs, nat_of_int (Stdlib.max 0 (int_of_nat n - int_of_nat hi))) in
+            (match sdl_step env d t true with
+             | (d', Suspended (SCk n')) -> tf (d' = fin && n' = n)
+             | _ -> "f")
+          | _ -> "f")
+       | _ -> "-") in
+    tf ok ^ " | " ^ (if tr = [] then "-" else String.concat "~" (List.map show_sdb tr)) ^ " | " ^ show_sdb fin
+    ^ " | " ^ soi (int_of_nat s'.sp_ck) ^ " " ^ tf s'.sp_applied
+    ^ " | " ^ tf (sdl_ck_ok fin s'.sp_ck) ^ " " ^ tf (sdl_done fin) ^ " " ^ tf (sdl_wf db) ^ " " ^ tf completes ^ " " ^ stepmodel
+  | _ -> failwith "SA"
+
+let opt_hex s = if s = "-" then None else Some (n_of_hex s)
+let show_opt = function None -> "-" | Some v -> hex_of_n v
+let parse_hrow s : hrow =
+  match String.split_on_char '/' s with
+  | [a; c; n; h; k] ->
+    { r_addr = n_of_hex a; r_class = opt_hex c; r_nonce = opt_hex n; r_height = opt_hex h;
+      r_contract = (if k = "-" then None else match String.split_on_char '.' k with
+        | [x; y; z] -> Some ((n_of_hex x, n_of_hex y), n_of_hex z) | _ -> failwith "contract") }
+  | _ -> failwith ("hrow " ^ s)
+let show_hrow (r : hrow) =
+  hex_of_n r.r_addr ^ "/" ^ show_opt r.r_class ^ "/" ^ show_opt r.r_nonce ^ "/" ^ show_opt r.r_height ^ "/"
+  ^ (match r.r_contract with None -> "-" | Some ((x, y), z) -> hex_of_n x ^ "." ^ hex_of_n y ^ "." ^ hex_of_n z)
+let parse_hsdb s : hrow list = if s = "_" then [] else List.map parse_hrow (String.split_on_char ',' s)
+let show_hsdb (d : hrow list) = if d = [] then "_" else String.concat "," (List.map show_hrow d)
+
+let do_ha rest =
+  match words rest with
+  | [db; en; wipes; bs] ->
+    let db = parse_hsdb db in
+    let e = match en.[0] with 'd' -> HEDone | 'i' -> HEInterrupted | 'e' -> HEError | 'x' -> HECrash | _ -> failwith "end" in
+    let a = { ha_batches = parse_batches n_of_hex bs; ha_wipes = nat_of_int (ios wipes); ha_end = e } in
+    let ok = hs_attempt_ok db a in
+    let tr = hs_trace db a in
+    let s' = hs_apply { hp_db = db; hp_tok = false; hp_applied = false } a in
+    let stepmodel =
+      if not ok then "-" else
+      let bs = a.ha_batches in
+      let rec run d t k =
+        if k = 0 then `Going (d, t) else
+        match hs_step (fun _ _ -> (bs, O)) d t false with
+        | (d', Done) -> `Done d'
+        | (d', Suspended t') -> run d' (Some t') (k - 1)
+        | (d', _) -> `Failed d' in
+      (match e with
+       | HEDone ->
+         (match run db None (List.length bs + 6) with
+          | `Done d' -> tf (d' = s'.hp_db)
+          | _ -> "f")
+       | HEInterrupted ->
+         (match run db None (List.length bs) with
+          | `Going (d, t) ->
+            let n = List.length (List.filter (fun r -> r.r_class <> None) db) in
+            let rec try_k k =
+              if k >= n then false else
+              let env _ hi = (bs, nat_of_int (Stdlib.max 0 (k - int_of_nat hi))) in
+              (match hs_step env d t true with
+               | (d', Suspended HTok) when d' = s'.hp_db -> true
+               | _ -> try_k (k + 1)) in
+            tf (try_k 0)
+          | _ -> "f")
+       | _ -> "-") in
+    tf ok ^ " | " ^ (if tr = [] then "-" else String.concat "~" (List.map show_hsdb tr)) ^ " | " ^ show_hsdb s'.hp_db
+    ^ " | " ^ tf s'.hp_tok ^ " " ^ tf s'.hp_applied
+    ^ " | " ^ tf (hs_ok db) ^ " " ^ tf (hs_wiped s'.hp_db) ^ " " ^ show_hsdb (hs_complete db) ^ " " ^ stepmodel
+  | _ -> failwith "HA"
+
+let do_hv rest =
+  match words rest with
+  | [db0; db] ->
+    let db0 = parse_hsdb db0 and db = parse_hsdb db in
+    tf (hs_consistent db0) ^ " " ^ tf (hs_new_view db = hs_legacy_view db0) ^ " " ^ tf (hs_wiped db)
+  | _ -> failwith "HV"
+
 let () =
   read_lines (fun line ->
     let line = String.trim line in
@@ -135,6 +267,9 @@ let () =
             (match sdl_migrate (nat_of_int (ios ck)) (List.map parse (String.split_on_char ',' db)) with
              | Some d -> "some " ^ String.concat "," (List.map show d) | None -> "none")
           | _ -> failwith "SD")
+      | "SA" -> do_sa rest
+      | "HA" -> do_ha rest
+      | "HV" -> do_hv rest
       | "AD" ->
           let evs = List.map parse_event (split ',' (String.trim rest)) in
           tf (applied_after_done (List.rev evs))
